@@ -10,6 +10,7 @@ def chart_and_history(seed, k, engine=None, bias=None, adversarial_p=0.3, dm=Non
     rs = usimlib.substream(seed, "sched")
     feats = dict(features or {})
     root = p_c01.gen_chart(rp, dm, feats, max_states=max_states)
+    par = bool((root.meta or {}).get("par_bias"))
     planted = None
     if rp.random() < plant_p:
         planted = gen.plant_failure(root, rp, root.attrs.get("datamodel", "null"))
@@ -18,14 +19,14 @@ def chart_and_history(seed, k, engine=None, bias=None, adversarial_p=0.3, dm=Non
     if rp.random() < adversarial_p:
         # stepper + controller under the seeded scheduler
         ctl = []
-        for _ in range(rp.randint(0, 8)):
+        for _ in range(rp.randint(0, 8) if not par else rp.randint(4, 16)):
             x = rp.random()
             if x < 0.3:
                 ctl.append({"op": "sleep", "ms": rp.choice([1, 2, 5, 10, 11, 30])})
             elif x < 0.4:
                 ctl.append({"op": "yield"})
             else:
-                ctl.append({"op": "recv", "i": 0, "name": rp.choice(gen.EXT_EVENTS + ["a", "b", "zz"])})
+                ctl.append({"op": "recv", "i": 0, "name": rp.choice(gen.EXT_EVENTS + ["a", "b", "zz"]) if not par else rp.choice(["a", "b", "a", "b", "a.x"])})
         ctl.append({"op": "sleep", "ms": rp.choice([1, 20, 70])})
         ctl.append({"op": "cancel", "i": 0})
         actors = {"main": [create, {"op": "validate", "i": 0}, {"op": "spawn", "actor": "stepper"}, {"op": "spawn", "actor": "ctl"}],
@@ -36,10 +37,10 @@ def chart_and_history(seed, k, engine=None, bias=None, adversarial_p=0.3, dm=Non
                  "spurious_p": rs.choice([0, 0.01]), "stall_p": rs.choice([0, 0.02]), "stall_len": 20, "max_decisions": 400000}
         mode = "adversarial"
     else:
-        actors = {"main": [create, {"op": "validate", "i": 0}] + p_c01.history_ops(rp)}
+        actors = {"main": [create, {"op": "validate", "i": 0}] + p_c01.history_ops(rp, many=(True if par and rp.random() < 0.8 else None))}
         sched = {"seed": seed & 0x7fffffff, "policy": "nonpreempt", "max_decisions": 400000}
         mode = "det"
-    return {"id": k, "seed": seed, "entropy_seed": seed & 0x7fffffff, "mode": mode, "engine": eng, "sched": sched, "planted": planted,
+    return {"id": k, "seed": seed, "step_budget": 900, "entropy_seed": seed & 0x7fffffff, "mode": mode, "engine": eng, "sched": sched, "planted": planted,
             "charts": {"main": root.xml()}, "actors": actors}
 
 
